@@ -103,7 +103,26 @@ def sound(data, msgs):
     return None
 
 
-def check_stream(data, entry='parse_all', cont='list'):
+def pollute():
+    """Leave OTHER parser / tokenizer instances in awkward states: a feed that raised half-way and was caught, a
+    tokenizer with undrained tokens, a parser with an open sysex and pending messages."""
+    from mido.tokenizer import Tokenizer
+    try:
+        mido.Parser().feed([0x90, 0x3C, 0x40, 0xF8, 0x100])
+    except ValueError:
+        pass
+    try:
+        mido.Parser().feed([0xFA, 0xB0, 1, 2, 'x'])
+    except TypeError:
+        pass
+    Tokenizer([0xFB, 0x91, 1, 2, 0xF0, 5])
+    p = mido.Parser([0xFC, 0xC1, 9, 0xF0, 1, 2])
+    return p
+
+
+def check_stream(data, entry='parse_all', cont='list', polluted=False):
+    keep = pollute() if polluted else None
+    del keep
     try:
         msgs = _feed(data, entry, cont)
     except Exception as exc:  # noqa: BLE001
@@ -136,7 +155,7 @@ def check_stream(data, entry='parse_all', cont='list'):
 
 
 def run_case(case):
-    return check_stream(case['data'], case.get('entry', 'parse_all'), case.get('cont', 'list'))
+    return check_stream(case['data'], case.get('entry', 'parse_all'), case.get('cont', 'list'), case.get('polluted', False))
 
 
 def _skipped_and_yield(data):
@@ -187,8 +206,12 @@ def main(ctx):
         'data': S.byte_stream(max_chunks=40 if ctx.tier == 'quick' else 300),
         'entry': st.sampled_from(['parse_all', 'Parser', 'feed', 'feed_byte', 'get_message', 'chunks', 'chunks3']),
         'cont': st.sampled_from(['list', 'tuple', 'bytes', 'bytearray', 'generator']),
+        'polluted': st.booleans(),
     })
     ctx.hyp(strat, n, label='streams')
+    for data in ([], [0x90, 1, 2], [0xF8], [0xF0, 1, 0xF8, 2, 0xF7], [0x40, 0x41]):
+        for entry in ('parse_all', 'feed_byte', 'chunks'):
+            ctx.check({'data': data, 'entry': entry, 'cont': 'list', 'polluted': True}, sample=False)
     raw = st.fixed_dictionaries({
         'data': st.lists(st.one_of(st.integers(0, 255), st.sampled_from(S.STATUS_REPS)), max_size=400),
         'entry': st.sampled_from(['parse_all', 'feed_byte']),
